@@ -67,7 +67,7 @@ def run_pyvc(pid, prop, tier):
     out = dict(obligations=[], functions=[], outside=[], crashes=[], trusted=[], assumptions=[], lemmas=[],
                solver_time_s=0.0, by_backend={}, covers=[])
     fuel = 2
-    timeout = 10000 if tier == 'quick' else 60000
+    timeout = 30000 if tier == 'quick' else 120000        # per obligation; the slowest takes ~7 s on an idle machine
     for fam in prop['families']:
         rep = verify_family(fam, fuel=fuel, timeout=timeout, serves=pid, refute_fuel=3 if tier == 'quick' else 4,
                             deep=(tier != 'quick'))
